@@ -208,7 +208,7 @@ func runC14(c c14Case) (*Violation, string) {
 		}()
 	}
 	if !bounded(12*time.Second, wg.Wait) {
-		return nil, "workload did not finish"
+		return violf("workload-wedged", "the concurrent workload (every call of which has its own 2-3 s limit) had not finished after 12 s"), ""
 	}
 	time.Sleep(3 * ping)
 	if foreign != nil {
@@ -269,6 +269,11 @@ func TestC14(t *testing.T) {
 		nt, cl := c14NT(c)
 		rec.Run(ft, c, nt, cl, func() *Violation {
 			v, info := runC14(c)
+			if v != nil && v.Key == "workload-wedged" {
+				if v2, _ := runC14(c); v2 == nil {
+					v = nil
+				}
+			}
 			var n int64
 			fmt.Sscanf(info, "%d", &n)
 			msgs += n
